@@ -253,7 +253,7 @@ def _hals_setup(case):
         # class of D22: the unconstrained least-squares solution is <= 0 everywhere, so the default
         # initialisation clip(solve(UtU, UtM), 0) is the zero matrix
         rs = np.random.RandomState(case["seed"] + 1)
-        M = U @ (-np.abs(rs.standard_normal((U.shape[1], M.shape[1]))) * rs.choice([0.0, 1.0, 1.0], size=(U.shape[1], 1)))
+        M = U @ (-np.abs(rs.standard_normal((U.shape[1], M.shape[1]))) * (rs.choice([0.0, 1.0, 1.0], size=(U.shape[1], 1)) if rs.uniform() < 0.25 else 1.0))
     G, B = U.T @ U, U.T @ M
     sp = 0.0 if case["sp"] is None else case["sp"]
     rd = 0.0 if case["rd"] is None else case["rd"]
@@ -491,13 +491,13 @@ def subchecks(tier):
     variants = [("cold", "plain"), ("cold", "l1"), ("cold", "ridge"), ("cold", "l1ridge"), ("warm", "plain"), ("warm", "pen")]
     for init, var in variants:
         for grp in ("kkt", "ref"):
-            subs.append(SubCheck(f"hals/{init}/{var}/{grp}", _hals_case(var, init), o_hals(grp), quick=30, thorough=500,
+            subs.append(SubCheck(f"hals/{init}/{var}/{grp}", _hals_case(var, init), o_hals(grp), quick=25, thorough=300,
                                  budget_quick=75))
-            subs.append(SubCheck(f"fista/{init}/{var}/{grp}", _fista_case(var, init), o_fista(grp), quick=40, thorough=500,
+            subs.append(SubCheck(f"fista/{init}/{var}/{grp}", _fista_case(var, init), o_fista(grp), quick=30, thorough=300,
                                  budget_quick=75))
-    subs.append(SubCheck("hals/epsilon/kkt", _hals_case("pen", "any", eps=True), o_hals("kkt"), quick=40, thorough=500, budget_quick=75))
-    subs.append(SubCheck("hals/cold_zero_init/kkt", _hals_case("plain", "cold", zero_init=True), o_hals("kkt"), quick=40, thorough=500, budget_quick=75))
-    subs.append(SubCheck("hals/cold_zero_init/ref", _hals_case("pen", "cold", zero_init=True), o_hals("ref"), quick=40, thorough=500, budget_quick=75))
+    subs.append(SubCheck("hals/epsilon/kkt", _hals_case("pen", "any", eps=True), o_hals("kkt"), quick=30, thorough=300, budget_quick=75))
+    subs.append(SubCheck("hals/cold_zero_init/kkt", _hals_case("plain", "cold", zero_init=True), o_hals("kkt"), quick=30, thorough=300, budget_quick=75))
+    subs.append(SubCheck("hals/cold_zero_init/ref", _hals_case("pen", "cold", zero_init=True), o_hals("ref"), quick=30, thorough=300, budget_quick=75))
     subs.append(SubCheck("fista/kron_list/kkt_ref", _fista_kron_case(), o_fista_kron, quick=60, thorough=800, budget_quick=75))
     for init in ("cold", "warm"):
         for grp in ("kkt", "ref"):
